@@ -184,7 +184,7 @@ func TestHistories(t *testing.T) {
 	if evid.ReplayPath() != "" || os.Getenv("C09_CHILD") != "" {
 		t.Skip()
 	}
-	evid.Check(t, "lifetime-histories", evid.Scale(1600, 96000), property)
+	evid.Check(t, "lifetime-histories", evid.Scale(1600, 160000), property)
 }
 
 // ---- isolated execution of one history in a child process ----
